@@ -217,7 +217,7 @@ Qed.
 (* I/O without faults                                                   *)
 Lemma io_ok a e : e_fault e = None -> io a e = (true, io_post a e).
 Proof.
-  intros H. unfold io, io_post. rewrite H. destruct (is_delete a); reflexivity.
+  intros H. unfold io, io_post, armed. rewrite H. destruct (is_delete a); reflexivity.
 Qed.
 Lemma io_post_fault a e : e_fault (io_post a e) = None.
 Proof. reflexivity. Qed.
